@@ -120,6 +120,16 @@ func c02Case(w *rt.W, n uint64, set int) {
 	judge("DefaultParser[[]byte]", g, err, false)
 	judge("Valid[string]", 0, roman.Valid(want, 0), true)
 	judge("Valid[[]byte]", 0, roman.Valid(out, 0), true)
+	// named types that print themselves differently from what they contain
+	g, err = roman.DefaultParser(loudS(want), 0)
+	judge("DefaultParser[string type with String()]", g, err, false)
+	judge("Valid[[]byte type with trimming String()]", 0, roman.Valid(trimB(want), 0), true)
+	if set%2 == 0 {
+		judge("Valid[string type with Error()]", 0, roman.Valid(errS(want), 0), true)
+	} else {
+		g, err = roman.DefaultParser(fmtS(want), 0)
+		judge("DefaultParser[string type with Format()]", g, err, false)
+	}
 }
 
 func c02Verbs(w *rt.W, n uint64) {
@@ -373,6 +383,7 @@ func runC02(c *rt.Ctx) {
 	}
 	roman.Formatter, roman.DefaultFormat = oldF, old
 	c.Require("failing-formatter", 50)
+	refillRun(c, c.Pick(40000, 400000), "roman")
 	coldStart(c, "C02", 12)
 	c.Require("digit-4-or-9", 1000)
 	c.Require("numeral-may-exceed-limit", 1)
